@@ -169,6 +169,16 @@ class Parser:
             break
         q = "::".join(parts)
         q = re.sub(r"^std::", "", q)
+        # make_unsigned<T>::type / make_signed<T>::type, T possibly underlying_type<E>::type
+        flat = q.replace(" ", "").replace("typename", "").replace("::std::", "").replace("std::", "")
+        mk = re.fullmatch(r"make_(un)?signed<(.+)>::type", flat)
+        if mk:
+            inner = mk.group(2)
+            ui = re.fullmatch(r"underlying_type<([\w:]+)>::type", inner)
+            if ui:
+                inner = ui.group(1)
+            if inner in self.type_names or inner in BUILTIN_TYPES:
+                return f"make_{'un' if mk.group(1) else ''}signed<{inner}>"
         # the underlying type of an enum is modelled as the enum's own integer type in the environment
         um = re.fullmatch(r"underlying_type<\s*(?:typename\s+)?([\w:]+?)\s*>::type", q)
         if um and (um.group(1) in self.type_names or um.group(1) in BUILTIN_TYPES):
@@ -311,6 +321,9 @@ class Env:
     def type(self, name):
         if name in self.types:
             return self.types[name]
+        mk = re.fullmatch(r"make_(un)?signed<(.+)>", name)
+        if mk:
+            return T(not mk.group(1), self.type(mk.group(2)).bits)
         if name in BUILTIN_TYPES:
             return BUILTIN_TYPES[name]
         raise Unsupported(f"unknown type {name}")
